@@ -274,6 +274,27 @@ func c14(repo string, out *fg.Out) error {
 		return fmt.Errorf("fromClauseTerminator: no case strings")
 	}
 	fmt.Fprintf(L, "def fromClauseTerminators : List String := %s\n", leanList(terms))
+	for _, fn := range []string{"tableRefStatementKind", "statementStartsAfter"} {
+		_, fd := fg.FindFunc(api, "", fn)
+		if fd == nil {
+			return fmt.Errorf("%s not found", fn)
+		}
+		var ws []string
+		ast.Inspect(fd.Body, func(n ast.Node) bool {
+			if cc, ok := n.(*ast.CaseClause); ok {
+				for _, x := range cc.List {
+					if s, err := evalStr(x); err == nil {
+						ws = append(ws, s)
+					}
+				}
+			}
+			return true
+		})
+		if len(ws) == 0 {
+			return fmt.Errorf("%s: no case strings", fn)
+		}
+		fmt.Fprintf(L, "def %s : List String := %s\n", fn, leanList(ws))
+	}
 	se, ok := pkgValue(api, "arcInvalidIdentifierSentinel")
 	if !ok {
 		return fmt.Errorf("arcInvalidIdentifierSentinel not found")
